@@ -466,6 +466,8 @@ func anywhere(r rune, p *Parser) stateFn {
 			p.exit()
 			p.exit = nil
 		}
+		// A cancelled control string is not followed by an ST
+		p.ignoreST = false
 		p.execute(r)
 		return ground
 	case r == 0x1B:
@@ -485,6 +487,7 @@ func anywhere(r rune, p *Parser) stateFn {
 				return
 			}
 			p.state = ground
+			p.ignoreST = false
 			p.emit(C0(0x1B))
 		})
 		return escape
@@ -982,6 +985,8 @@ func oscString(r rune, p *Parser) stateFn {
 	case r == 0x07:
 		p.exit()
 		p.exit = nil
+		// BEL terminated the string, there is no ST to ignore
+		p.ignoreST = false
 		return ground
 	case in(r, 0x00, 0x17), r == 0x19, in(r, 0x1C, 0x1F):
 		// ignore
